@@ -11,5 +11,5 @@ CONSTANTS
   Spurious = FALSE
   Interrupts = FALSE
   Bug = "noadvance"
-INVARIANTS ViewIsFunctionOfMoved StreamExact ReadWriteComplete RecvSendBounds NoHangPastTimeout WaitsOnlyForData
+INVARIANTS StreamExact
 CHECK_DEADLOCK FALSE
